@@ -70,6 +70,11 @@ func (c03) Gen(r *simrt.Rand, idx int, tier string) *Case {
 		f.Mappings = append(f.Mappings, m)
 		c.Sub += "+map"
 	}
+	if accs := c.J.Accounts(); r.P(0.15) && len(accs) > 0 {
+		// --remap shows the matching accounts under the opposite type; values are unaffected
+		f.Remap = append(f.Remap, pickRegex(r, accs))
+		c.Sub += "+remap"
+	}
 	c.Args = f.Args()
 	c.Scheds = []Sched{RandSched(r)}
 	if idx%3 == 0 {
